@@ -171,11 +171,11 @@ func (cons *VesaFbConsole) Fill(x, y, width, height uint32, _, bg uint8) {
 		y = cons.heightInChars
 	}
 
-	if x+width-1 > cons.widthInChars {
+	if width > cons.widthInChars-x+1 {
 		width = cons.widthInChars - x + 1
 	}
 
-	if y+height-1 > cons.heightInChars {
+	if height > cons.heightInChars-y+1 {
 		height = cons.heightInChars - y + 1
 	}
 
